@@ -70,9 +70,15 @@ def generate(tier, seed):
     return cases
 
 
+# the file every cell is about; its type varies per project: a text type, types that cannot carry a comment (and are therefore
+# never annotated in place, but read all the same), a script
+FN = {"name": "f.txt"}
+FNAMES = ["f.txt", "f.csv", "f.txt", "f.svg", "f.json", "f.py", "f.txt", "f.ipynb"]
+
+
 def own_items(cell_dir, own, dot):
     """What the file itself (or its .license) declares -> set of (kind, value, source, type)."""
-    f = f"{cell_dir}/d1/d2/f.txt"
+    f = f"{cell_dir}/d1/d2/{FN['name']}"
     if dot != "absent":
         src, typ, info, tag = f + ".license", "dot-license", {"empty": "none"}.get(dot, dot), "Dot"
     else:
@@ -122,7 +128,7 @@ def expected(cell_dir, cell, root_level=False):
     ovr = next((i for i, e in enumerate(eff) if e and e[0] == "override"), None)
     if ovr is not None:
         must = set(eff[ovr][2])
-        forbidden_src = {f"{cell_dir}/d1/d2/f.txt", f"{cell_dir}/d1/d2/f.txt.license"} | {f"{dirs[j]}/REUSE.toml" for j in range(ovr + 1, 3)}
+        forbidden_src = {f"{cell_dir}/d1/d2/{FN['name']}", f"{cell_dir}/d1/d2/{FN['name']}.license"} | {f"{dirs[j]}/REUSE.toml" for j in range(ovr + 1, 3)}
         outer_present = any(eff[j] for j in range(ovr)) or root_level
     if root_level:
         eff = [("closest", "both", set(ROOT_ITEMS))] + eff
@@ -152,7 +158,7 @@ def write_cell(root, cell_dir, cell):
     own, dot, levels = OWN[cell[0]], DOT[cell[1]], cell[2]
     d = root / cell_dir / "d1" / "d2"
     d.mkdir(parents=True)
-    f = d / "f.txt"
+    f = d / FN["name"]
     cop = "# SPDX-FileCopyrightText: 2000 Own Holder\n"
     lic = "# SPDX-License-Identifier: LicenseRef-own\n"
     if own == "none":
@@ -173,18 +179,18 @@ def write_cell(root, cell_dir, cell):
             t += "SPDX-FileCopyrightText: 2000 Dot Holder\n"
         if dot in ("lic", "both"):
             t += "SPDX-License-Identifier: LicenseRef-dot\n"
-        (d / "f.txt.license").write_text(t)
+        (d / (FN["name"] + ".license")).write_text(t)
     dirs = level_dirs(cell_dir)
     for lv, opt in enumerate(levels):
         if opt == 0:
             continue
         opts = opt if isinstance(opt, list) else [opt]
-        rel = "/".join(["d1", "d2", "f.txt"][lv:])
+        rel = "/".join(["d1", "d2", FN["name"]][lv:])
         out = ["version = 1", ""]
         for ti, o in enumerate(opts):
             prec, info = LEVEL_OPTS[o]
             # vary the way the path is written: exact path, or a glob that matches it
-            path = rel if (cell[0] + ti + lv) % 3 else ("**/f.txt" if lv < 2 else "*.txt")
+            path = rel if (cell[0] + ti + lv) % 3 else ("**/" + FN["name"] if lv < 2 else "*" + os.path.splitext(FN["name"])[1])
             out += ["[[annotations]]", f'path = "{path}"', f'precedence = "{prec}"']
             if info in ("cop", "both"):
                 out.append(f'SPDX-FileCopyrightText = "200{lv} L{lv}T{ti} Holder"')
@@ -229,6 +235,8 @@ def run_case(case, ctx):
         return run_dep5(case, ctx, res)
     root = ctx.scratch / f"c04-{case['base']}"
     root.mkdir()
+    FN["name"] = FNAMES[(case["base"] // PER_PROJECT) % len(FNAMES)]
+    res.cell("file-type:" + FN["name"])
     try:
         # directory names on both sides of "." in string order, and the root spelled "." in half of the projects: the chain of
         # REUSE.toml files must be ordered by depth, not by how the paths happen to compare as text
@@ -240,7 +248,7 @@ def run_case(case, ctx):
         dot_root = (case["base"] // PER_PROJECT) % 2 == 1
         root_level = (case["base"] // PER_PROJECT) % 4 in (1, 2)
         if root_level:
-            (root / "REUSE.toml").write_text('version = 1\n\n[[annotations]]\npath = "**/f.txt"\nprecedence = "closest"\n'
+            (root / "REUSE.toml").write_text('version = 1\n\n[[annotations]]\npath = "**/' + FN["name"] + '"\nprecedence = "closest"\n'
                                              'SPDX-FileCopyrightText = "1999 Root Holder"\nSPDX-License-Identifier = "LicenseRef-root"\n')
         from ..monitors import FS
 
@@ -259,7 +267,7 @@ def run_case(case, ctx):
         for j, cell in enumerate(case["cells"]):
             cd = names[j]
             res.n += 1
-            fe = by.get(f"{cd}/d1/d2/f.txt")
+            fe = by.get(f"{cd}/d1/d2/{FN['name']}")
             if fe is None:
                 res.violation("file-not-reported", f"cell {cell}: file missing from lint --json")
                 continue
@@ -276,7 +284,7 @@ def run_case(case, ctx):
                 shadow = {i for i in obs if i[2] in forb}
             if forb:
                 # "the file is not read": neither the file nor its .license sibling may be opened under an override
-                opened = [p for p in (str(root / cd / "d1" / "d2" / "f.txt"), str(root / cd / "d1" / "d2" / "f.txt.license")) if p in reads]
+                opened = [p for p in (str(root / cd / "d1" / "d2" / FN["name"]), str(root / cd / "d1" / "d2" / (FN["name"] + ".license"))) if p in reads]
                 if opened:
                     res.violation("overridden-file-opened", f"cell own={OWN[cell[0]]} levels={describe(cell[2])}: the file is governed by an override but "
                                   f"{[os.path.basename(p) for p in opened]} was opened", cell=cell)
@@ -318,6 +326,7 @@ def describe(levels):
 def run_dep5(case, ctx, res):
     root = ctx.scratch / "c04-dep5"
     root.mkdir()
+    FN["name"] = "f.txt"
     try:
         paras = []
         for j, (own, dot, d) in enumerate(case["cells"]):
